@@ -43,3 +43,19 @@ def rule_dict(doc, title="t", extra=None):
     if extra:
         r.update(extra)
     return r
+
+
+def convert_via(doc: dict, backend, via: int):
+    """Load the rule document and convert it through one of four equivalent routes (chosen by the case number, so
+    that every route is exercised over the whole corpus): from_dict / from_yaml of the dumped document x
+    convert_rule(rule) / convert(collection)."""
+    import yaml
+    from sigma.collection import SigmaCollection
+    from sigma.rule import SigmaRule
+
+    as_yaml, as_collection = via % 2 == 1, (via // 2) % 2 == 1
+    if as_collection:
+        coll = SigmaCollection.from_yaml(yaml.safe_dump(doc, sort_keys=False)) if as_yaml else SigmaCollection.from_dicts([doc])
+        return backend.convert(coll)
+    rule = SigmaRule.from_yaml(yaml.safe_dump(doc, sort_keys=False)) if as_yaml else SigmaRule.from_dict(doc)
+    return backend.convert_rule(rule)
